@@ -151,18 +151,55 @@ def run_leg(run):
     fin['reserved_words'] = sorted(set(Lexer.keywords_dict) ^ set(L.RESERVED))
     zs = {chr(c) for c in range(0x110000) if unicodedata.category(chr(c)) == 'Zs'} | set(L.WHITESPACE_FIXED)
     fin['white_space'] = sorted('U+%04X' % ord(c) for c in (set(Lexer.t_ignore) ^ zs) - {'\u180e'})     # U+180E left Zs in Unicode 6.3: not judged
+    # non-ASCII identifier classes: a code point (BMP) that is a letter / mark / digit / connector both in Unicode 3.2 (ES5: "3.0 or
+    # later") and in this Python's Unicode database must be accepted in that role; U+17B4/5 were format characters in between
+    fin['identifier_characters'] = unicode_class_gaps()
     for name, diff in fin.items():
         if diff:
             rpd = {'property': 'C03', 'input': {'claim': 'lexical_set', 'set': name, 'difference': diff}}
             ok, detail = rp.run_in_subprocess(rpd)
             if ok:
-                run.violation('C03 L: %s differ: %s' % (name, ' '.join(diff)[:60]), detail[:300], rpd)
+                run.violation('C03 L: %s differ: %s' % (name, ' '.join(diff)[:120]), detail[:400], rpd)
             else:
                 run.inconclusive_('finite lexical set %s: %s' % (name, detail[:200]))
     st['solver_s'] = round(st['solver_s'], 2)
     st['alphabet'] = len(A.points)
     run.leg('L_lexical', **st)
     return st
+
+
+UCLASSES = [('start', ('Lu', 'Ll', 'Lt', 'Lm', 'Lo', 'Nl')), ('part', ('Mn', 'Mc')), ('part', ('Nd',)), ('part', ('Pc',))]
+
+
+def _ranges(cs):
+    out = []
+    for c in sorted(cs):
+        if out and c == out[-1][1] + 1:
+            out[-1][1] = c
+        else:
+            out.append([c, c])
+    return out
+
+
+def unicode_class_gaps():
+    from calmjs.parse.lexers.es5 import Lexer
+    old = unicodedata.ucd_3_2_0
+    start = re.compile(Lexer.identifier_start)
+    ident = re.compile(Lexer.identifier)
+    gaps = []
+    for role, cats in UCLASSES:
+        miss = set()
+        for c in range(0x80, 0x10000):
+            if 0xD800 <= c <= 0xDFFF or c in (0x17B4, 0x17B5):
+                continue
+            ch = chr(c)
+            if old.category(ch) in cats and unicodedata.category(ch) in cats:
+                ok = start.fullmatch(ch) if role == 'start' else ident.fullmatch('a' + ch)
+                if not ok:
+                    miss.add(c)
+        for a, b in _ranges(miss):
+            gaps.append('%s:%s:U+%04X-U+%04X' % (role, '/'.join(cats), a, b))
+    return gaps
 
 
 def replay_set(d):
@@ -184,6 +221,14 @@ def replay_set(d):
                 toks = None
             if (toks == [item]) != (item in L.PUNCTUATORS):
                 bad.append(item)
+        elif w['set'] == 'identifier_characters':
+            role, cats, rng = item.split(':')
+            a, b = [int(x[2:], 16) for x in rng.split('-')]
+            for c in sorted({a, (a + b) // 2, b}):
+                text = chr(c) if role == 'start' else 'a' + chr(c)
+                ok, detail = lex_single(text, 'ID')
+                if not ok and unicodedata.category(chr(c)) in cats.split('/'):
+                    bad.append('U+%04X (%s, %s) is not accepted as identifier %s: %s' % (c, unicodedata.category(chr(c)), unicodedata.name(chr(c), '?'), role, detail))
         else:
             c = chr(int(item[2:], 16))
             lx = Lexer()
